@@ -20,6 +20,7 @@ pub fn run(args: &[String]) {
             "conv" => crate::gens::run_conv(&line),
             "brain" => crate::gens::run_brain(&line),
             "brainhist" => crate::gens::run_brainhist(&line),
+            "brainconc" => crate::gens::run_brainconc(&line),
             _ => "bad-mode".to_string(),
         };
         let _ = writeln!(out, "{res}");
